@@ -76,7 +76,9 @@ pub fn windowed(checksum: bool, nblocks: u32) -> Seed {
         let seqs = if b == 0 {
             vec![Seq { ll: 200, ml: 100, of: 3 + 150 }, Seq { ll: 50, ml: 300, of: 3 + 7 }]
         } else {
-            vec![Seq { ll: 100, ml: 200, of: 3 + 1000.min(produced + 100) }, Seq { ll: 0, ml: 150, of: 1 }, Seq { ll: 150, ml: 250, of: 3 + 1024.min(produced + 600) }]
+            // the first sequence of the block has no literals and reaches back exactly one window (or to the first
+            // byte of the frame): it is only decodable if a full window was retained across the block boundary
+            vec![Seq { ll: 0, ml: 60, of: 3 + 1024.min(produced) }, Seq { ll: 100, ml: 140, of: 3 + 1000.min(produced + 100) }, Seq { ll: 0, ml: 150, of: 1 }, Seq { ll: 150, ml: 250, of: 3 + 1024.min(produced + 600) }]
         };
         produced += 300 + seqs.iter().map(|s| s.ml).sum::<u32>();
         blocks.push(Block::Compressed { lits: Lits::Raw(lits, 1), count_form: 1, modes: pre(), seqs, pick: 0 });
